@@ -55,6 +55,11 @@ CLAIMED = {
              "the necessity of 'receiver knows the joint' is shown by a witness (a joint unknown at apply time is dropped: the split-snapshot case). Tied to the code by translator facts on both loops, the mapper's fields and the token name (D5), by running the model's functions on the real uuid maps of every traced SkinnedMesh update (live, relayed and snapshot to a late joiner), and by the oracle (joints as uuids and bind-pose bits equal on every peer, traffic stops).",
         note="Trusted: Lean kernel + standard axioms; that every joint is known on the receiver when the update is applied (FIFO + entity replication) is checked per trace, not proved; snapshots larger than one renet tick (joint spawn and mapper split across frames) are exercised only in the thorough tier.",
         technique="Lean 4 proof (filterMap/map list theorem, relay composition) + model-vs-trace correspondence + oracle", ref="§7 C16"),
+    "C17": dict(
+        text="Machine-checked proof on the companion slice (the nine fix systems as a table regenerated from bundle_fix.rs, Added/Without filters, deferred inserts): after a kind lands, one frame in ANY order of the nine unordered systems adds every companion; no sequence of fix steps ever changes a replicated value or raises a change for it (so the component slice's convergence theorem applies to these types unchanged); present companions are not touched; a system does not fire twice. The pre-repair value re-insert (D8) is refuted by a kernel-checked witness. "
+             "Tie: the real fix machinery of every peer replayed on the model frame by frame (dumped system order, companion presence after every frame), component-slice correspondence for Transform/Visibility/lights, oracle (companions within a frame, values converge, an existing GlobalTransform keeps its value).",
+        note="Trusted: Lean kernel + standard axioms; Added<T>/Without<T> semantics and Commands flush points modelled, tied by sampled trace correspondence; companion values other than GlobalTransform are only checked for presence.",
+        technique="Lean 4 proof (order-independent frame theorem, value-untouched invariant) + frame-by-frame trace correspondence + oracle", ref="§7 C17"),
 }
 PENDING_REASON = "not claimed yet: machinery for this property is still being built (see DESIGN.md §10 build order); no check is registered until its theorems and tie run"
 
